@@ -10,6 +10,9 @@ ENV   = {"classes":[{"path":s,"name":s,"abstract":b,"params":[PARAM]}], "edges":
          "imports":[[path, {"k":"cls","path":s} | {"k":"func","path":s,"ret":s,"params":[PARAM]} | {"k":"other"}]]}
 PARAM = {"name":s, "ty":["scalar"|"optScalar"|"cls"|"optCls", s], "dflt": [] | [VAL]}
 VAL   = {"lit":[ty,tok]} | {"spec":{"cp":null|s,"ia":[[k,VAL]],"dk":[[k,VAL]]}} | {"bare":[[k,VAL]]} | {"nested":[[k..],VAL]}
+        | {"lst":[VAL]} | {"dct":[[k,VAL]]}
+  {"aty": ["listOf"|"dictOf"|"cls"|"optCls", base], "sources": [{"raw": VAL, "append": bool}], "fuel": n}
+                                                   -> {"ok": VAL|null, "ctors": [CTOR], "arg": ARG} | {"err": kind}
 CTOR  = {"target":s,"args":[[k,ARG]],"kwargs":[[k,ARG]]},  ARG = {"lit":[ty,tok]} | {"obj":n} | "raw"
 -/
 import Lean.Data.Json
@@ -54,6 +57,12 @@ partial def valOfJson (j : Json) : Val :=
   | _ =>
   match j.getObjVal? "nested" with
   | .ok (.arr #[.arr ks, v]) => .nested (ks.toList.filterMap fun x => match x with | .str s => some s | _ => none) (valOfJson v)
+  | _ =>
+  match j.getObjVal? "lst" with
+  | .ok (.arr xs) => .lst (xs.toList.map valOfJson)
+  | _ =>
+  match j.getObjVal? "dct" with
+  | .ok (.arr xs) => .dct (kvs xs.toList)
   | _ => .lit "NoneType" "None"
 
 partial def valToJson : Val → Json
@@ -64,12 +73,16 @@ partial def valToJson : Val → Json
       ("dk", .arr (dk.map fun e => Json.arr #[.str e.1, valToJson e.2]).toArray)])]
   | .bare kvs => Json.mkObj [("bare", .arr (kvs.map fun e => Json.arr #[.str e.1, valToJson e.2]).toArray)]
   | .nested ks v => Json.mkObj [("nested", .arr #[.arr (ks.map Json.str).toArray, valToJson v])]
+  | .lst xs => Json.mkObj [("lst", .arr (xs.map valToJson).toArray)]
+  | .dct kvs => Json.mkObj [("dct", .arr (kvs.map fun e => Json.arr #[.str e.1, valToJson e.2]).toArray)]
 
 def tyOfJson (j : Json) : PTy :=
   match j with
   | .arr #[.str "cls", .str b] => .cls b
   | .arr #[.str "optCls", .str b] => .optCls b
   | .arr #[.str "optScalar", .str t] => .optScalar t
+  | .arr #[.str "listOf", .str b] => .listOf b
+  | .arr #[.str "dictOf", .str b] => .dictOf b
   | .arr #[.str _, .str t] => .scalar t
   | _ => .scalar "?"
 
@@ -104,11 +117,15 @@ def errStr : Err → String
   | .unknownKey => "unknownKey"
   | .illTyped => "illTyped"
   | .missingRequired => "missingRequired"
+  | .notList => "notList"
+  | .notDict => "notDict"
 
 def argToJson : Arg → Json
   | .lit ty tok => Json.mkObj [("lit", .arr #[.str ty, .str tok])]
   | .obj n => Json.mkObj [("obj", .num (JsonNumber.fromNat n))]
   | .raw => .str "raw"
+  | .lst l => Json.mkObj [("lst", .arr (l.map fun o => match o with | some i => Json.num (JsonNumber.fromNat i) | none => Json.null).toArray)]
+  | .dct l => Json.mkObj [("dct", .arr (l.map fun e => Json.arr #[.str e.1, match e.2 with | some i => Json.num (JsonNumber.fromNat i) | none => Json.null]).toArray)]
 
 def ctorToJson (c : Ctor) : Json :=
   Json.mkObj [("target", .str c.target),
@@ -131,6 +148,18 @@ def step (E : ClassEnv) (j : Json) : Json × ClassEnv :=
     | .ok r => (Json.mkObj [("ok", valToJson r)], E)
     | .error e => (Json.mkObj [("err", .str (errStr e))], E)
   | _ =>
+    match j.getObjVal? "aty" with
+    | .ok aty =>
+      -- an argument of any modelled type: sources are {"raw": VAL, "append": bool}
+      let srcs : List Src := (getArr j "sources").map fun x =>
+        { raw := valOfJson (x.getObjVal? "raw" |>.toOption |>.getD .null), append := getBool x "append" }
+      match adaptArgAll E (getNat j "fuel" 24) (tyOfJson aty) srcs with
+      | .error e => (Json.mkObj [("err", .str (errStr e))], E)
+      | .ok none => (Json.mkObj [("ok", .null), ("ctors", .arr #[])], E)
+      | .ok (some s) =>
+        let r := inst s []
+        (Json.mkObj [("ok", valToJson s), ("ctors", .arr (r.1.map ctorToJson).toArray), ("arg", argToJson r.2)], E)
+    | _ =>
     let srcs := (getArr j "sources").map valOfJson
     let dflt := match j.getObjVal? "default" with
       | .ok .null => none
